@@ -114,6 +114,7 @@ func (s *streamer) joinStream() *stream {
 	stream := s.charged[l-1]
 	s.charged = s.charged[:l-1]
 	s.chargedMu.Unlock()
+	verifGate("streamer.join.beforeAttach")
 	stream.attach()
 
 	return stream
